@@ -280,6 +280,33 @@ def fixture_traces(outdir, nsteps, only=None):
     return paths
 
 
+def dbinit_traces(outdir):
+    """Timed worlds started from databook totals (no injected state): the first step is recorded together with the databook total of every
+    timed compartment, for the clause InitSpread (the initial occupants are spread uniformly over the duration)."""
+    import numpy as np
+
+    at = C.quiet_atomica()
+    cat = {w["id"]: w for w in WD.catalogue("quick")}
+    paths = []
+    for wid, vals in (("tfrac", {"a": 100, "v": 60, "d": 0}), ("tlong", {"a": 10, "v": 50, "d": 0}), ("tgroup", {"a": 20, "v": 30, "w": 7, "d": 0})):
+        w = cat[wid]
+        dt = float(w["dt"])
+        S = at.ProjectSettings(2000, 2000 + 2 * dt, dt)
+        pv = [[(Fr(0) if p["units"] != "duration" and not p["timed"] else p["dom"][0]) for p in w["pars"]] for _ in range(2)]
+        Fw, ps = WD.build_parset(w, pv, S.tvec)
+        for c in w["comps"]:
+            if c["kind"] in ("source", "sink"):
+                continue
+            ts = ps.pars[c["base"]].ts[c["pop"]]
+            ts.t, ts.vals, ts.assumption = [], [], float(vals[c["base"]])
+        with O.LinkObserver():
+            r = at.run_model(S, Fw, ps)
+        p = os.path.join(outdir, "lib_dbinit_%s.ndjson" % wid)
+        O.record_run(r.model, p, wid="dbinit:" + wid, steps=[0], world=w, dbtot=[(float(vals[c["base"]]) if c["kind"] == "timed" else None) for c in w["comps"]])
+        paths.append(p)
+    return paths
+
+
 def library_traces(models, outdir):
     at = C.quiet_atomica()
     paths = []
@@ -377,6 +404,8 @@ def run(prop, tier):
             V.violation("%s replay rows world=%s" % (prop, wid), dict(source="free multi-step run", world=wid, dt=str(w_["dt"]), expected_rows={c["name"]: c["rows"] for c in w_["comps"] if c["rows"] > 1}))
     lib = library_traces(LIB_THOROUGH if thorough else LIB_QUICK, tdir) if prop in ("C01", "C02", "C03", "C04") else []
     lib += fixture_traces(tdir, 400 if thorough else 8, only=None if thorough else QUICK_FIXTURES)
+    if prop == "C05":
+        lib += dbinit_traces(tdir)
     paths = list(files) + list(ffiles) + lib
     out = validate_traces(paths, clauses)
     nsteps = 0
